@@ -483,6 +483,110 @@ def real_connection_contract(res):
     return fails
 
 
+class CoopLock:
+    """a lock whose waiting is a scheduling point (a parked holder must not block the whole schedule)"""
+
+    def __init__(self, ctx):
+        self.ctx = ctx
+        self.held = False
+
+    def acquire(self, *_a, **_k):
+        while self.held:
+            self.ctx.point("lock")
+        self.held = True
+        return True
+
+    def release(self):
+        self.held = False
+
+    def __enter__(self):
+        self.acquire()
+        return self
+
+    def __exit__(self, *exc):
+        self.release()
+        return False
+
+
+def tcp_write_vs_disconnect(res, rng, tier):
+    """Transport.send over the real TCPTransport while the user disconnects: the operating system takes the
+    command in two pieces (a scheduling point in between); the peer must see the whole command or nothing."""
+    import socket
+    from mysensors.gateway_tcp import TCPTransport
+    from mysensors.transport import BaseMySensorsProtocol, Transport
+    fails = []
+    for trial in range(60 if tier == "quick" else 1500):
+        ctx = Ctx(timeout=2.0)
+        a, b = socket.socketpair()
+        b.setblocking(False)
+
+        class SockWrap:
+            def __init__(self, sock):
+                self.sock = sock
+
+            def sendall(self, data):
+                half = len(data) // 2
+                self.sock.sendall(data[:half])
+                ctx.point("mid-sendall")
+                self.sock.sendall(data[half:])
+
+            def __getattr__(self, name):
+                return getattr(self.sock, name)
+        gwns = types.SimpleNamespace(on_conn_lost=lambda *_a: None, on_conn_made=lambda *_a: None)
+        tr = Transport(gwns, lambda _t: None)
+        proto = BaseMySensorsProtocol(gwns, lambda: None)
+        conn = TCPTransport(SockWrap(a), lambda: proto, lambda: None)
+        conn.join = lambda *_a: None
+        conn._lock = CoopLock(ctx)
+        proto.transport = conn
+        tr.protocol = proto
+        try:
+            threads = [ctx.coop.spawn(lambda: tr.send(MSG), "send"), ctx.coop.spawn(tr.disconnect, "disc")]
+            for th in threads:
+                ctx.coop.prime(th)
+            sched = []
+            for _ in range(120):
+                live = [i for i, th in enumerate(threads) if not th.done]
+                if not live:
+                    break
+                i = rng.choice(live)
+                sched.append(i)
+                ctx.coop.resume(threads[i])
+            statuses = [th.status for th in threads]
+            got = b""
+            try:
+                while True:
+                    piece = b.recv(4096)
+                    if not piece:
+                        break
+                    got += piece
+            except OSError:
+                pass
+        except HarnessHang:
+            res.count("tcp-write-disconnect:infeasible")
+            continue
+        finally:
+            ctx.coop.shutdown()
+            for sock in (a, b):
+                try:
+                    sock.close()
+                except OSError:
+                    pass
+        res.count("tcp-write-disconnect:" + ("whole" if got == MSG.encode() else "nothing" if not got else "partial"))
+        res.distinct.add(digest(["twd", sched]))
+        bad = None
+        if statuses[0] not in ("ret", "run", "done"):
+            bad = f"send ended with {statuses[0]}"
+        elif got not in (b"", MSG.encode()):
+            bad = f"the peer received the truncated command {got!r}"
+        if bad:
+            fails.append({"key": {"kind": "tcp-write-vs-disconnect"}, "replay": {"op": "tcp-write-disconnect", "schedule": sched},
+                          "what": f"disconnect() while a send is writing to the real TCPTransport: {bad} (schedule {sched})"})
+            if len(fails) > 3:
+                break
+    return fails
+
+
 def judge(data):
     """Property C16 on one real execution.  None or (kind, description)."""
     if data["sender"] not in ("ret",):
@@ -776,6 +880,9 @@ def run(tier, seed, driver):
     finally:
         REAL_CONNECT[0] = False
 
+    for bad in tcp_write_vs_disconnect(res, rng, tier):
+        res.oracle_failures.append(bad)
+
     # (c'') the real connection objects honour the contract the fakes stand for: write() on a usable
     # connection hands over the whole command, on a dead one it raises an OSError (which send() absorbs)
     for bad in real_connection_contract(res):
@@ -856,7 +963,12 @@ def run(tier, seed, driver):
                 "connection_made; 4 start states x 13 opposing thread sets; every maximal interleaving at "
                 "shared-access granularity (three-thread sets: first 250/2500 in DFS order plus 60/1500 random "
                 "schedules when there are more; all others exhaustive and counted against the model); queue: all "
-                "schedules up to length 6/8 for (2,1) and (1,1,1) producers + random up to 4 producers; "
+                "schedules up to length 6/8 for (2,1) and (1,1,1) producers + random up to 4 producers; oracle-only sweeps: "
+                "seven OSError subclasses raised by write() on a closed connection and on an open one after a partial "
+                "write; the real SyncTransport.connect as reconnect callback (thread creation faked); Transport.send "
+                "over the real TCPTransport (socketpair) and pyserial ReaderThread (loop://) usable / closed / "
+                "peer-closed / peer-reset; send against disconnect over the real TCPTransport with the command taken in two "
+                "pieces; queue schedules with a thread calling stop(); "
                 "non-trivial = distinct (scenario, schedule)")
     if driver is not None:
         try:
@@ -899,6 +1011,12 @@ def _feasible(start, other, pre):
 def replay(payload):
     r = payload.get("replay", payload)
     print(payload.get("what", ""))
+    if r.get("op") == "tcp-write-disconnect":
+        res = Result()
+        bad = tcp_write_vs_disconnect(res, random.Random(16), "quick")
+        print(res.histogram)
+        print("oracle:", bad[:1])
+        return 1 if bad else 0
     if r.get("op") == "real-conn":
         res = Result()
         bad = [f for f in real_connection_contract(res) if f["replay"] == r]
